@@ -376,7 +376,7 @@ pub fn run(args: &Args) -> i32 {
     //      only place where snapshot reads are interleaved with commits)
     let skipped2 = AtomicI64::new(0);
     let mut main_pairs = twoconn::Pairs::default();
-    let two_cap = t0.elapsed().as_secs_f64() + args.tier.pick(6.0, 200.0);
+    let two_cap = t0.elapsed().as_secs_f64() + args.tier.pick(7.0, 200.0);
     {
         let two_ops: Vec<&OpDef> = ops.iter().copied().filter(|o| o.env == 0).filter(|o| args.tier == Tier::Thorough || ["scan1@mid", "truncate@mid", "lock@mid", "tip_beyond@mid"].contains(&o.name.as_str())).collect();
         let mut jobs: Vec<(usize, bool, u64, u64)> = vec![]; // (op, wal, class 4: period | class 5: step, class)
@@ -387,20 +387,22 @@ pub fn run(args: &Args) -> i32 {
             for wal in [false, true] {
                 jobs.push((i, wal, period, 4));
             }
-            let rs = twoconn::reader_steps(&fx, main_pairs.get(&fx, false), op);
+            let (rs, bounds) = twoconn::reader_steps(&fx, main_pairs.get(&fx, false), op);
             let stride = (rs / args.tier.pick(60u64, 1500u64)).max(1);
-            let mut k = 1;
-            while k <= rs {
+            let points = twoconn::interruption_points(rs, &bounds, stride);
+            for k in &points {
                 for wal in [false, true] {
-                    jobs.push((i, wal, k, 5));
+                    jobs.push((i, wal, *k, 5));
                 }
-                k += stride;
             }
-            run.section(&format!("two_connections:{}", op.name), json!({"writer_vm_steps": m.steps, "snapshot_period": period, "reader_vm_steps": rs, "reader_step_stride": stride}));
+            run.section(&format!("two_connections:{}", op.name), json!({"writer_vm_steps": m.steps, "snapshot_period": period, "reader_vm_steps": rs, "reader_statements": bounds.len(), "reader_step_stride": stride, "reader_interruption_points": points.len()}));
             if period > 1 || stride > 1 {
                 run.not_exhaustive();
             }
         }
+        // class 4 first, then the class-5 points in an order that covers the reader's run evenly
+        // (every 8th point, then the points in between) should the budget end the phase early
+        jobs.sort_by_key(|(i, wal, x, class)| (*class, if *class == 5 { x % 8 } else { 0 }, *x, *i, *wal));
         let out4: Mutex<Vec<String>> = Mutex::new(vec![]);
         par_map(
             &jobs,
@@ -439,30 +441,27 @@ pub fn run(args: &Args) -> i32 {
             run.fail("twoconn", format!("twoconn:{}:{}:{}:{}", parts[0], parts[1], parts[2], parts[3]), parts[4].to_string(), json!({"op": parts[0], "wal": parts[1] == "true", "x": parts[2].parse::<u64>().unwrap(), "class": parts[3].parse::<u64>().unwrap()}));
         }
         // class 5 for the pool-migration snapshot reads (own budget)
-        let two_cap = t0.elapsed().as_secs_f64() + args.tier.pick(6.0, 200.0);
+        let two_cap = t0.elapsed().as_secs_f64() + args.tier.pick(9.0, 200.0);
         {
             let reads = migops::migration_reads();
             let mut mjobs: Vec<(usize, &'static str, bool, u64)> = vec![];
             for (i, rd) in reads.iter().enumerate() {
-                if args.tier == Tier::Quick && i % 2 == 1 {
-                    continue;
-                }
-                let rs = twoconn::mig_reader_steps(&fx, main_pairs.get(&fx, false), rd);
-                let stride = (rs / args.tier.pick(12u64, 400u64)).max(1);
-                run.section(&format!("two_connections:{}", rd.name), json!({"reader_vm_steps": rs, "reader_step_stride": stride, "writers": twoconn::MIG_WRITERS}));
+                let (rs, bounds) = twoconn::mig_reader_steps(&fx, main_pairs.get(&fx, false), rd);
+                let stride = (rs / args.tier.pick(150u64, 4000u64)).max(1);
+                let points = twoconn::interruption_points(rs, &bounds, stride);
+                run.section(&format!("two_connections:{}", rd.name), json!({"reader_vm_steps": rs, "reader_statements": bounds.len(), "reader_step_stride": stride, "reader_interruption_points": points.len(), "writers": rd.writers}));
                 if stride > 1 {
                     run.not_exhaustive();
                 }
-                let mut k = 1;
-                while k <= rs {
-                    for wr in twoconn::MIG_WRITERS {
+                for k in &points {
+                    for wr in rd.writers.iter().copied() {
                         for wal in [false, true] {
-                            mjobs.push((i, wr, wal, k));
+                            mjobs.push((i, wr, wal, *k));
                         }
                     }
-                    k += stride;
                 }
             }
+            mjobs.sort_by_key(|(i, wr, wal, k)| (k % 8, *k, *i, *wr, *wal));
             let mfails: Mutex<Vec<(usize, &'static str, bool, u64, String)>> = Mutex::new(vec![]);
             par_map(
                 &mjobs,
@@ -472,7 +471,15 @@ pub fn run(args: &Args) -> i32 {
                         skipped2.fetch_add(1, Ordering::Relaxed);
                         return;
                     }
-                    match twoconn::mig_reader_interrupted(&fx, pairs.get(&fx, *wal), &reads[*i], wr, *k) {
+                    let tp = std::time::Instant::now();
+                    let pr = pairs.get(&fx, *wal);
+                    let t_pair = tp.elapsed();
+                    let tp = std::time::Instant::now();
+                    let res = twoconn::mig_reader_interrupted(&fx, pr, &reads[*i], wr, *k);
+                    if std::env::var("VERIF_PROGRESS").is_ok() && *k % 40 == 1 {
+                        eprintln!("mig experiment {} {wr} wal={wal} k={k}: pair {:?} experiment {:?}", reads[*i].name, t_pair, tp.elapsed());
+                    }
+                    match res {
                         Ok(o) => {
                             run.eval_distinct(1);
                             run.outcome(&format!("mig-reader:{}:{o}", if *wal { "wal" } else { "journal" }));
